@@ -333,7 +333,8 @@ func checkC14(c ContractCase, r *rec.Rec) error {
 	if want.status == 2 && res.Stdout != "" {
 		return viol("%s exits 2 but prints %q", desc, res.Stdout)
 	}
-	// 2. -o
+	// 2. -o (the output file already exists and is longer than what will be written)
+	writeFile(dir, "out", strings.Repeat("stale content of an earlier run\n", 200))
 	res2 := runCLI(bin, append(append([]string{"-o=out"}, flags...), "a", "b"), nil, dir)
 	if err := cliTrouble(res2); err != nil {
 		return err
@@ -356,6 +357,13 @@ func checkC14(c ContractCase, r *rec.Rec) error {
 	}
 	if res3.Status != res.Status || res3.Stdout != res.Stdout {
 		return viol("%s: reading b from stdin gives status %d and %q, naming the file gives status %d and %q", desc, res3.Status, res3.Stdout, res.Status, res.Stdout)
+	}
+	res3f := runCLIFileStdin(bin, append(append([]string{}, flags...), "a"), bText, dir)
+	if err := cliTrouble(res3f); err != nil {
+		return err
+	}
+	if res3f.Status != res.Status || res3f.Stdout != res.Stdout {
+		return viol("%s: reading b from stdin redirected from a file gives status %d and %q, naming the file gives status %d and %q", desc, res3f.Status, res3f.Stdout, res.Status, res.Stdout)
 	}
 	cls := []string{"bin=" + c.Bin, "opts=" + c.Opts, "format=" + c.format(), fmt.Sprintf("status=%d", want.status)}
 	if c.Yaml {
@@ -391,6 +399,7 @@ func checkC14(c ContractCase, r *rec.Rec) error {
 			return pviol("%s yields %q which is not Equal to b = %q under the flags", pdesc, resP.Stdout, bText)
 		}
 		// -o and stdin in patch mode
+		writeFile(dir, "pout", strings.Repeat("stale content of an earlier run\n", 200))
 		resPo := runCLI(bin, append(append([]string{"-p", "-o=pout"}, flags...), "d", "a"), nil, dir)
 		if err := cliTrouble(resPo); err != nil {
 			return err
@@ -404,6 +413,13 @@ func checkC14(c ContractCase, r *rec.Rec) error {
 		}
 		if resPs.Status != resP.Status || resPs.Stdout != resP.Stdout {
 			return pviol("%s: reading the document from stdin gives status %d and %q instead of status %d and %q", pdesc, resPs.Status, resPs.Stdout, resP.Status, resP.Stdout)
+		}
+		resPf := runCLIFileStdin(bin, append(append([]string{"-p"}, flags...), "d"), aText, dir)
+		if err := cliTrouble(resPf); err != nil {
+			return err
+		}
+		if resPf.Status != resP.Status || resPf.Stdout != resP.Stdout {
+			return pviol("%s: reading the document from stdin redirected from a file gives status %d and %q instead of status %d and %q", pdesc, resPf.Status, resPf.Stdout, resP.Status, resP.Stdout)
 		}
 		cls = append(cls, "round-trip")
 	}
@@ -523,6 +539,7 @@ func checkC14Translate(c ContractCase, r *rec.Rec) error {
 		return rec.Violated("%s exits 2 but prints %q", desc, res.Stdout)
 	}
 	// -o and stdin
+	writeFile(dir, "out", strings.Repeat("stale content of an earlier run\n", 200))
 	res2 := runCLI(bin, append(append([]string{}, pre...), "-o=out", "-t="+c.Tr, "in"), nil, dir)
 	if err := cliTrouble(res2); err != nil {
 		return err
@@ -536,6 +553,13 @@ func checkC14Translate(c ContractCase, r *rec.Rec) error {
 	}
 	if res3.Status != res.Status || res3.Stdout != res.Stdout {
 		return rec.Violated("%s: input from stdin gives status %d and %q instead of status %d and %q", desc, res3.Status, res3.Stdout, res.Status, res.Stdout)
+	}
+	res3f := runCLIFileStdin(bin, append(append([]string{}, pre...), "-t="+c.Tr), c.TrIn, dir)
+	if err := cliTrouble(res3f); err != nil {
+		return err
+	}
+	if res3f.Status != res.Status || res3f.Stdout != res.Stdout {
+		return rec.Violated("%s: input from stdin redirected from a file gives status %d and %q instead of status %d and %q", desc, res3f.Status, res3f.Stdout, res.Status, res.Stdout)
 	}
 	r.Case(c.Bin+"|"+c.Tr+"|"+c.TrIn, want.status == 0 && c.TrIn != "", "bin="+c.Bin, "translate="+c.Tr, fmt.Sprintf("status=%d", want.status))
 	if want.status == 0 {
